@@ -90,14 +90,23 @@ pub(crate) enum DiscoveredVia {
   SelfDefined,  // not discovered, but defined by the local DomainParticipant
 }
 
+// keep_existing: an entry already present in `to` is newer than the one moved there
+// and is not overwritten.
 fn move_by_guid_prefix<D>(
   guid_prefix: GuidPrefix,
   from: &mut BTreeMap<GUID, D>,
   to: &mut BTreeMap<GUID, D>,
+  keep_existing: bool,
 ) {
   let to_move: Vec<GUID> = from.range(guid_prefix.range()).map(|(g, _)| *g).collect();
   for guid in to_move {
-    from.remove(&guid).map(|d| to.insert(guid, d));
+    if let Some(d) = from.remove(&guid) {
+      if keep_existing {
+        to.entry(guid).or_insert(d);
+      } else {
+        to.insert(guid, d);
+      }
+    }
   }
 }
 
@@ -187,15 +196,19 @@ impl DiscoveryDB {
         new_participant = false;
       }
 
+      // An endpoint that was announced again while its participant was lost is
+      // already back in the table, with newer data than the attic has.
       move_by_guid_prefix(
         guid.prefix,
         &mut self.external_topic_readers_attic,
         &mut self.external_topic_readers,
+        true,
       );
       move_by_guid_prefix(
         guid.prefix,
         &mut self.external_topic_writers_attic,
         &mut self.external_topic_writers,
+        true,
       );
     }
     // actual work here:
@@ -251,11 +264,13 @@ impl DiscoveryDB {
         guid_prefix,
         &mut self.external_topic_readers,
         &mut self.external_topic_readers_attic,
+        false,
       );
       move_by_guid_prefix(
         guid_prefix,
         &mut self.external_topic_writers,
         &mut self.external_topic_writers_attic,
+        false,
       );
     }
   }
